@@ -126,6 +126,30 @@ func c12RefOps(u *nodelite.Universe) []c12Op {
 	}
 }
 
+// c12PinRef: which reference an operation pins or unpins ("" if none), by operation name.
+func c12PinRef(name string) (ref string, unpin bool) {
+	i, j := strings.IndexByte(name, '('), strings.IndexByte(name, ')')
+	if i < 0 || j < i {
+		return "", false
+	}
+	kind, arg := name[:i], name[i+1:j]
+	switch {
+	case kind == "unpin" && strings.HasPrefix(arg, "bytes "):
+		return arg[6:] + ".f", true
+	case kind == "unpin" && strings.HasPrefix(arg, "chunk "):
+		return arg[6:], true
+	case kind == "unpin":
+		return arg + ".R", true
+	case kind == "pin" || kind == "aurora+pin":
+		return arg + ".R", false
+	case kind == "bytes+pin":
+		return arg + ".f", false
+	case kind == "chunk+pin":
+		return arg, false
+	}
+	return "", false
+}
+
 func c12Names(m map[string]bool) string {
 	var ks []string
 	for k := range m {
@@ -188,6 +212,19 @@ func TestVerifC12(t *testing.T) {
 		uploaded := map[string]bool{}   // chunks whose current presence originates from an upload
 		registered := map[string]bool{} // files uploaded through POST /aurora or cached, and not evicted since
 		gcRuns, evictions := 0, 0
+		// references for which an unpin request was issued (whatever it answered) and no pin succeeded since:
+		// a failed unpin may have removed chunk pins and left the root pin, such references are not judged
+		unpinAttempted := map[string]bool{}
+		notePin := func(name, out string) {
+			ref, unpin := c12PinRef(name)
+			switch {
+			case ref == "":
+			case unpin:
+				unpinAttempted[ref] = true
+			case out == "201" || out == "200":
+				delete(unpinAttempted, ref)
+			}
+		}
 		// initial state: empty store (depth steps), or a store that already holds content sharing one chunk
 		// three ways — B=[x,z] uploaded through POST /aurora, R=[x,x] (x repeated inside the file) and A=[x,y]
 		// cached; gcSize 7 of capacity 8 — so that histories with two successive collection runs over
@@ -280,6 +317,7 @@ func TestVerifC12(t *testing.T) {
 			if op.reg != "" && out == op.regOK {
 				registered[op.reg] = true
 			}
+			notePin(op.name, out)
 			x.Logf("%s -> %s   [%s]", op.name, out, s1.Key())
 			x.Outcome(op.name[:strings.IndexAny(op.name+"(", "(")] + ":" + out)
 
@@ -314,6 +352,7 @@ func TestVerifC12(t *testing.T) {
 					if r.reg != "" && out == r.regOK {
 						registered[r.reg] = true
 					}
+					notePin(r.name, out)
 					raced, racePoint = r.name, point
 					processed = append([]string{}, done...)
 					s1 = a
@@ -474,6 +513,9 @@ func TestVerifC12(t *testing.T) {
 				// the pin index says about the single chunks: pin counts are reference counts, a chunk pinned
 				// through two references stays protected while one of them is pinned
 				for _, pr := range pinnedRefsBefore {
+					if unpinAttempted[pr] {
+						continue
+					}
 					for _, c := range refClosure[pr] {
 						if s1.Data[c] && !s2.Data[c] {
 							x.Fail("gc-deleted-chunk-of-pinned-reference", "GC deleted %s (pin count in the index: %d) although reference %s, which contains it, is listed as pinned; %s", c, s1.Pin[c], pr, ctx)
@@ -500,7 +542,7 @@ func TestVerifC12(t *testing.T) {
 			x.NoErr(err, "infokey")
 			sk, err := n.Snap()
 			x.NoErr(err, "snapshot")
-			if x.Seen(sk.Key()+"#"+ik+"#U:"+c12Names(uploaded)+"#R:"+c12Names(registered), steps-step-1) {
+			if x.Seen(sk.Key()+"#"+ik+"#U:"+c12Names(uploaded)+"#R:"+c12Names(registered)+"#UA:"+c12Names(unpinAttempted), steps-step-1) {
 				return
 			}
 		}
